@@ -144,6 +144,11 @@ def main():
         jtu.register_pytree_node(Custom, lambda c: (c.cs, None), lambda aux, cs: Custom(*cs))
         jtu.register_pytree_node(Packed, lambda p: ((p.child,), (p.shape, p.dtype)), lambda aux, cs: Packed(aux[0], aux[1], cs[0]))
         out = []
+        if req.get("prelude"):
+            # unrelated earlier activity in this process: PyTree checks that fail, or whose user code raises (also during flatten)
+            sys.path.insert(0, __import__("os").path.dirname(__import__("os").path.abspath(__file__)))
+            import impl_calls
+            impl_calls.prelude()
         for sess in req["sessions"]:
             res = []
 
